@@ -13,11 +13,16 @@ def run(rep, tier, seed):
     if quick:
         drive.run_op(rep, ocf.CRepHarness(2, 3, "front"))
         drive.run_op(rep, ocf.CRepHarness(2, 3, "impacts"))
-    for N, M in ([(2, 2)] if quick else [(2, 2), (2, 3), (3, 2)]):
+    for N, M in ([(2, 2)] if quick else [(2, 2), (3, 2)]):
         drive.run_op(rep, ocf.CRepHarness(N, M, "ranks"))
         if M <= 2:
             drive.run_op(rep, ocf.CRepHarness(N, M, "accept-base"))
             drive.run_op(rep, ocf.CRepHarness(N, M, "query"))
+    # the same conditional listed more than once (identical formula objects)
+    dup = {("A", 2): "same_as_0", ("B", 2): "same_as_0"}
+    drive.run_op(rep, ocf.CRepHarness(2, 3, "ranks", shapes=dup))
+    if not quick:
+        drive.run_op(rep, ocf.CRepHarness(2, 3, "accept-base", shapes=dup))
     # real optimizer.py under the object (L1) on the smallest shape
     drive.run_op(rep, ocf.CRepHarness(2, 2, "impacts", level="L1"))
     rep.assumptions.append("the impact CSP of a path is concrete; it is optimised by the genuine z3 (only the one Pareto point / the one enumeration order z3 produces is observed); Pareto-minimality and completeness of the front are decided against ALL integer impact vectors (unbounded)")
